@@ -224,3 +224,85 @@ def selection_unit():
                 assumptions=["seed scores pairwise distinct and candidate confidences pairwise distinct (exact ties make the stable sort "
                              "order observable; the statement excludes nothing about ties, so they are left outside the claim)"],
                 outside=["exact ties", "real seeding"])
+
+
+# ------------------------------------------------------------------------------------------------ completion order
+
+def body_completion_order(E, cfg):
+    world = orch.make_world(E, cfg)
+    rows, exc = orch.run_execute(world)
+    if exc is not None:
+        E.tag("exception-path")
+        E.check("checked", True)
+        return ["exception", type(exc).__name__]
+    got = [r.queryId for r in rows]
+    order = [q.moleculeId for q in world.queries]
+    if len(got) >= 2:
+        E.tag("nontrivial")
+    E.check("per-query-results-are-collected-in-submission-order-whatever-the-completion-order",
+            got == [i for i in order if i in got])
+    return [got]
+
+
+def completion_order_unit():
+    return Unit(name="results-collected-in-submission-order", body=body_completion_order,
+                configs=lambda tier: [dict(initial_kinds=["empty", 1], refined_peaks=[1], row_has_pairs=[True], nrefs=1, nq=2, peaksCount=1),
+                                      dict(initial_kinds=[1], refined_peaks=[1], row_has_pairs=[True, False], nrefs=1, nq=3, peaksCount=1)],
+                functions=orch.ORCH_FUNCTIONS, stubs=orch.ORCH_STUBS,
+                bounds="2-3 queries, one reference; the parallel map the coordinator calls is modelled per its library contract (ordered for "
+                       "p_imap/p_map, adversarially reversed for the unordered variants)",
+                nontrivial_rule="at least two queries yield a record",
+                assumptions=["p_tqdm contract: p_imap/p_map preserve input order"],
+                outside=["real worker processes and their timing"])
+
+
+# ------------------------------------------------------------------------------------------------ sequence generation keeps no state
+
+def body_sequence_state(E, cfg):
+    """two fragments of one query share molecule id and length but hold different labels: the bit vector of the second must be
+    the function of its own labels (no per-process state keyed by id/length)"""
+    from src.correlation.optical_map import OpticalMap
+    from src.correlation.sequence_generator import SequenceGenerator
+    res, radius, n = cfg["res"], cfg["radius"], cfg["n"]
+    maps = []
+    length = E.int("sharedLength")
+    for m in range(2):
+        ks = []
+        for i in range(n):
+            k = E.int(f"frag{m}_bin{i}")
+            E.assume(k >= 0 if i == 0 else k > ks[-1])
+            ks.append(k)
+        E.assume(ks[-1] < cfg["maxbins"])
+        maps.append((ks, OpticalMap(7, length, [res * k for k in ks], shift=3 * m)))
+    gen = SequenceGenerator(res, radius)
+    try:
+        first = [int(x) for x in maps[0][1].getSequence(gen, cfg["rev"])]
+        second = [int(x) for x in maps[1][1].getSequence(gen, cfg["rev"])]
+        again = [int(x) for x in maps[0][1].getSequence(gen, cfg["rev"])]
+    except Exception as ex:  # noqa
+        E.tag("exception-path")
+        E.check("checked", True)
+        return ["exception", type(ex).__name__]
+    E.tag("nontrivial")
+
+    def rule(bits, ks):
+        fwd = bits[::-1] if cfg["rev"] else bits
+        near = lambda i: Or([And(k - radius <= i, i <= k + radius) for k in ks])
+        return And([near(i) if fwd[i] == 1 else Not(near(i)) for i in range(len(fwd))] + [ks[-1] == len(fwd) - 1])
+    E.check("second-fragment's-vector-is-a-function-of-its-own-labels", rule(second, maps[1][0]))
+    E.check("first-fragment's-vector-is-a-function-of-its-own-labels", rule(first, maps[0][0]))
+    E.check("repeating-a-call-gives-the-same-vector", first == again)
+    return [first, second]
+
+
+def sequence_state_unit():
+    return Unit(name="sequence-generation-keeps-no-process-state", body=body_sequence_state,
+                configs=lambda tier: [dict(res=100, radius=r, n=n, maxbins=5 if tier == "quick" else 7, rev=rev)
+                                      for r in (0, 1) for n in (1, 2) for rev in (False, True)],
+                functions=["src.correlation.optical_map:OpticalMap.getSequence", "src.correlation.sequence_generator:SequenceGenerator.positionsToSequence",
+                           "src.correlation.vectorise:vectorisePositions", "src.correlation.vectorise:blur"],
+                bounds="two maps with the same molecule id and length (fragments of one query) of 1-2 labels on a resolution lattice, <= 5/7 bins, "
+                       "blur radius 0..1, both strands",
+                nontrivial_rule="every path",
+                assumptions=["labels are multiples of the resolution"],
+                outside=["the FFT correlation itself"])
